@@ -173,3 +173,48 @@ def gen_times(rng, n, ordered=True):
     if not ordered:
         rng.shuffle(out)
     return out
+
+
+def gen_run_scenario(rng, tier, nfiles=1, seq=0.3, constraint=0.3, empty=0.15,
+                     lines=None, kind='std'):
+    """
+    General scenario for whole-run checks: `nfiles` files (some empty), simple and
+    sequence searches registered on subsets of the files, optional file-level since
+    constraint on time-stamped logs.
+    """
+    from vh import seekcheck as K
+    files, all_times = [], []
+    use_ts = rng.random() < constraint
+    for k in range(nfiles):
+        if rng.random() < empty:
+            content = b''
+        elif use_ts:
+            content, times = K.gen_log(rng, lines if lines is not None else n_lines(rng, tier),
+                                       kind, ordered=True, undated=0.2, longs=0.1)
+            all_times += times
+        else:
+            content = assemble(rng, gen_lines(rng, lines if lines is not None
+                                               else n_lines(rng, tier), seqish=True, longs=0.05))
+        files.append({'name': f'f{k}.log', 'content': content.hex()})
+    defs = []
+    for _ in range(rng.choice([1, 2, 3, 4])):
+        defs.append(gen_seq_def(rng) if rng.random() < seq else gen_simple_def(rng))
+    regs = []
+    for i in range(len(defs)):
+        for k in range(nfiles):
+            if rng.random() < 0.8:
+                regs.append([i, k])
+    for k in range(nfiles):
+        if not any(r[1] == k for r in regs):
+            regs.append([rng.randrange(len(defs)), k])
+    if rng.random() < 0.15:
+        regs.append(list(rng.choice(regs)))
+    scn = {'files': files, 'defs': defs, 'regs': regs}
+    if use_ts:
+        scn['constraints'] = [K.gen_since(rng, all_times, kind)]
+        scn['global'] = 0
+    if rng.random() < 0.3:
+        scn['decode_errors'] = rng.choice(['ignore', 'replace', 'backslashreplace'])
+    if nfiles > 1:
+        scn['max_parallel_tasks'] = rng.choice([0, 1, 2, 3, 8, 16])
+    return scn
